@@ -47,7 +47,10 @@ func (res *UnitResult) queryBody(o *Obligation) string {
 	var b strings.Builder
 	b.WriteString("(set-logic ALL)\n")
 	b.WriteString(res.U.Preamble())
-	for _, a := range res.Assumes[:o.NAssume] {
+	for i, a := range res.Assumes[:o.NAssume] {
+		if !res.keepAssume(o, i) {
+			continue
+		}
 		b.WriteString("(assert ")
 		b.WriteString(a)
 		b.WriteString(")\n")
